@@ -26,9 +26,45 @@ Module B := GoCoap.Blockwise.Model.
 Module L := GoCoap.Limiter.Model.
 Module O := GoCoap.Observe.Model.
 
+
+(* ---- doInternal as a program over the token table (tokenHandlerContainer) ----
+   TReg r tok : LoadOrStore(token.Hash(), continuation); when the key exists the call returns
+                ErrKeyAlreadyExists at once and stores nothing
+   TDeliver tok: handle(): LoadAndDelete(token) -- the response is handed to the continuation
+   TExit r     : the call returns (write error, context done, connection closed, or response
+                received); the deferred LoadAndDelete(token.Hash()) runs -- it deletes BY TOKEN *)
+Inductive tstat := TNot | TWait (tok : Z) | TRet.
+Record toks := mkT { ttab : list (Z * Z); tst : Z -> tstat }.
+Inductive tact := TReg (r tok : Z) | TDeliver (tok : Z) | TExit (r : Z).
+
+Fixpoint tassoc (l : list (Z * Z)) (k : Z) : option Z :=
+  match l with [] => None | (k', v) :: r => if k =? k' then Some v else tassoc r k end.
+Definition tremove (l : list (Z * Z)) (k : Z) : list (Z * Z) := filter (fun kv => negb (fst kv =? k)) l.
+Definition tset (f : Z -> tstat) (r : Z) (v : tstat) : Z -> tstat := fun x => if x =? r then v else f x.
+
+Definition tstep (s : toks) (a : tact) : toks :=
+  match a with
+  | TReg r tok =>
+      match tst s r with
+      | TNot => match tassoc (ttab s) tok with
+                | Some _ => mkT (ttab s) (tset (tst s) r TRet)
+                | None => mkT ((tok, r) :: ttab s) (tset (tst s) r (TWait tok))
+                end
+      | _ => s
+      end
+  | TDeliver tok => mkT (tremove (ttab s) tok) (tst s)
+  | TExit r =>
+      match tst s r with
+      | TWait tok => mkT (tremove (ttab s) tok) (tset (tst s) r TRet)
+      | _ => s
+      end
+  end.
+Definition toks0 : toks := mkT [] (fun _ => TNot).
+
 Record conn := mkConn {
   dd : D.st;            (* response cache *)
-  rx : R.st;            (* requests (token continuations) and pending confirmables *)
+  rx : R.st;            (* requests and pending confirmables *)
+  tk : toks;            (* token continuations *)
   pg : list R.pend;     (* AsyncPing entries of the pending table *)
   bs : B.tbl;           (* sendingMessagesCache *)
   br : B.tbl;           (* receivingMessagesCache *)
@@ -58,14 +94,15 @@ Definition dummy_msg (t : Z) : B.msg :=
   {| B.mcode := 0; B.mtok := t; B.mb1 := None; B.mb2 := None; B.ms1 := None; B.ms2 := None;
      B.metag := None; B.mobs := None; B.mother := []; B.mbody := [] |}.
 
-Definition with_dd (s : conn) (x : D.st) := mkConn x (rx s) (pg s) (bs s) (br s) (lm s) (ob s) (mx s) (live s).
-Definition with_rx (s : conn) (x : R.st) := mkConn (dd s) x (pg s) (bs s) (br s) (lm s) (ob s) (mx s) (live s).
-Definition with_pg (s : conn) (x : list R.pend) := mkConn (dd s) (rx s) x (bs s) (br s) (lm s) (ob s) (mx s) (live s).
-Definition with_bs (s : conn) (x : B.tbl) := mkConn (dd s) (rx s) (pg s) x (br s) (lm s) (ob s) (mx s) (live s).
-Definition with_br (s : conn) (x : B.tbl) := mkConn (dd s) (rx s) (pg s) (bs s) x (lm s) (ob s) (mx s) (live s).
-Definition with_lm (s : conn) (x : L.lim) := mkConn (dd s) (rx s) (pg s) (bs s) (br s) x (ob s) (mx s) (live s).
-Definition with_ob (s : conn) (x : O.st) (lv : list nat) := mkConn (dd s) (rx s) (pg s) (bs s) (br s) (lm s) x (mx s) lv.
-Definition with_mx (s : conn) (x : mmap) := mkConn (dd s) (rx s) (pg s) (bs s) (br s) (lm s) (ob s) x (live s).
+Definition with_dd (s : conn) (x : D.st) := mkConn x (rx s) (tk s) (pg s) (bs s) (br s) (lm s) (ob s) (mx s) (live s).
+Definition with_rx (s : conn) (x : R.st) := mkConn (dd s) x (tk s) (pg s) (bs s) (br s) (lm s) (ob s) (mx s) (live s).
+Definition with_tk (s : conn) (x : toks) := mkConn (dd s) (rx s) x (pg s) (bs s) (br s) (lm s) (ob s) (mx s) (live s).
+Definition with_pg (s : conn) (x : list R.pend) := mkConn (dd s) (rx s) (tk s) x (bs s) (br s) (lm s) (ob s) (mx s) (live s).
+Definition with_bs (s : conn) (x : B.tbl) := mkConn (dd s) (rx s) (tk s) (pg s) x (br s) (lm s) (ob s) (mx s) (live s).
+Definition with_br (s : conn) (x : B.tbl) := mkConn (dd s) (rx s) (tk s) (pg s) (bs s) x (lm s) (ob s) (mx s) (live s).
+Definition with_lm (s : conn) (x : L.lim) := mkConn (dd s) (rx s) (tk s) (pg s) (bs s) (br s) x (ob s) (mx s) (live s).
+Definition with_ob (s : conn) (x : O.st) (lv : list nat) := mkConn (dd s) (rx s) (tk s) (pg s) (bs s) (br s) (lm s) x (mx s) lv.
+Definition with_mx (s : conn) (x : mmap) := mkConn (dd s) (rx s) (tk s) (pg s) (bs s) (br s) (lm s) (ob s) x (live s).
 
 Definition rstep (c : R.cfg) (s : conn) (e : R.ev) : conn := with_rx s (fst (R.step c (rx s) e)).
 (* the ping entries obey the rules of the pending table: run them through the same step *)
@@ -107,11 +144,11 @@ Definition step (c : R.cfg) (s : conn) (e : cev) : conn :=
   | EIn typ code mid ans =>
       let s1 := with_mx s (exec (mx s) [(O, mid); (O, mid); (O, mid); (O, mid)]) in
       with_dd s1 (fst (D.step (dd s1) (D.Req typ mid [] code [] (if ans then D.BResp 69 [] [] else D.BNone))))
-  | RxSend r => rstep c s (R.Send r [] None)
-  | RxPiggy r => rstep c s (R.Piggy r 69)
+  | RxSend r => with_tk (rstep c s (R.Send r [] None)) (tstep (tk s) (TReg r r))
+  | RxPiggy r => with_tk (rstep c s (R.Piggy r 69)) (tstep (tstep (tk s) (TDeliver r)) (TExit r))
   | RxAck r => rstep c s (R.Ack r)
   | RxRst r => rstep c s (R.Rst r)
-  | RxCancel r => rstep c s (R.Cancel r)
+  | RxCancel r => with_tk (rstep c s (R.Cancel r)) (tstep (tk s) (TExit r))
   | LmArrive r k => with_lm s (L.step (lm s) (L.Arrive (Z.to_N r) (Z.to_N k)))
   | LmCancel r => with_lm s (L.step (lm s) (L.Cancel (Z.to_N r)))
   | LmFinish r => with_lm s (L.step (lm s) (L.Finish (Z.to_N r)))
@@ -137,10 +174,10 @@ Definition step (c : R.cfg) (s : conn) (e : cev) : conn :=
 Definition run (c : R.cfg) (s : conn) (evs : list cev) : conn := fold_left (step c) evs s.
 
 Definition init (limit epl : Z) : conn :=
-  mkConn (D.init 0) R.init [] [] [] (L.new_lim limit epl) O.st0 (MutexMap.init 1) [].
+  mkConn (D.init 0) R.init toks0 [] [] [] (L.new_lim limit epl) O.st0 (MutexMap.init 1) [].
 
 (* ---- table sizes, in the order the harness reads them ---- *)
-Definition n_tokens (s : conn) : Z := blen (filter (fun q => negb (R.is_done (R.q_st q))) (R.reqs (rx s))).
+Definition n_tokens (s : conn) : Z := blen (ttab (tk s)).
 Definition n_mids (s : conn) : Z := blen (R.pending (rx s)) + blen (pg s).
 Definition n_mutex (s : conn) : Z := blen (tab (mx s)).
 Definition n_cache (s : conn) : Z := blen (D.cache (dd s)).
